@@ -1357,7 +1357,7 @@ func probeUid(r *mon.Run, root string) (bool, string) {
 }
 
 func Run(r *mon.Run) {
-	r.Rule = "one distinct case = (set of injected start-up faults by name, informational flag, TTY or not, and - engines logged/loggedpair - the way an OPENABLE log file is configured on top: -log or CURLREVSHELL_LOG, file fresh or already there; engines stdio/stdiopair - what descriptors 0, 1 and 2 are while the pty stays the CONTROLLING terminal: the terminal, /dev/null, a pipe, a regular file, closed) for fault runs, (way of ending, option set) for clean exits, (way of ending, what descriptors 0-2 are, option set) for clean exits with redirected descriptors (engine stdioclean), (kind of unusable Ctrl+I source or member, member name, -print-ctrl-i on a TTY / without one / into a pipe / into a file or Tab / Ctrl+J followed by Ctrl+C / Ctrl+D, other fault) for the Ctrl+I source runs (engine ctrlisrc), (way of ending, when Tab was pressed relative to it, shell none/attached/stalled, kind of Ctrl+I source, option set) for exits with insertions pending; every case is a run of the real, race-built binary judged on exit status, complete output and termios of the pty before/after"
+	r.Rule = "one distinct case = (set of injected start-up faults by name, informational flag, TTY or not, and - engines logged/loggedpair - the way an OPENABLE log file is configured on top: -log or CURLREVSHELL_LOG, file fresh or already there; engines stdio/stdiopair - what descriptors 0, 1 and 2 are while the pty stays the CONTROLLING terminal: the terminal, /dev/null, a pipe, a regular file, closed) for fault runs, (way of ending, option set) for clean exits, (way of ending, what descriptors 0-2 are, option set) for clean exits with redirected descriptors (engine stdioclean), (kind of unusable Ctrl+I source or member, member name, -print-ctrl-i on a TTY / without one / into a pipe / into a file or Tab / Ctrl+J followed by Ctrl+C / Ctrl+D, other fault) for the Ctrl+I source runs (engine ctrlisrc), (way of ending, when Tab was pressed relative to it, shell none/attached/stalled, kind of Ctrl+I source, option set) for exits with insertions pending, (signals / terminal events delivered to the running program: SIGCONT alone, to the process or its group, SIGSTOP-SIGCONT, SIGTSTP-SIGCONT, a stop with the terminal handed back and forth as a job-control shell does, SIGWINCH, a real window-size change, a window-size change while stopped, or a drawn sequence of 2-5 of these; the moment: idle prompt, half-typed line, shell attached and talking, muted, right before the exit; the self-exit that follows: Ctrl+C, Ctrl+D, -one-shell completion; option set) for engine signal, (start-up fault whose detection comes after the events: damaged certificate cache delivered through a FIFO, listen address in use; events) for engine sigfault; every case is a run of the real, race-built binary judged on exit status, complete output and termios of the pty before/after"
 	r.Assumptions = append(r.Assumptions,
 		"the program is started as a session leader on a fresh pty (TTY) or with setsid, no controlling terminal and stdio on pipes/dev-null (no TTY)",
 		"'names the cause' is judged by class keywords (tty|terminal, listen, cach|certificate, log, ctrl+i|insert|source), case-insensitively, on pty+stdout+stderr; the offending path/address is only counted, not demanded",
@@ -1371,6 +1371,8 @@ func Run(r *mon.Run) {
 		"redirected-descriptor dimension (TTY x descriptors): besides 'everything on the pty' and 'no controlling terminal', the program is run as session leader of the pty (TIOCSCTTY, so /dev/tty is the pty) with standard input and/or output and/or error being /dev/null, a pipe held by the harness, a regular file, or closed (closed by a /bin/sh that replaces itself with the program) - `curlrevshell </dev/null`, `printf ... | curlrevshell`, `curlrevshell 2>file` typed at an interactive terminal; every start-up fault alone (quick: once with only standard input redirected, once with stdout/stderr redirected, once with a drawn combination), sampled cross-class pairs, and the informational flags; the termios compared before/after is that of the CONTROLLING terminal; exit status, crash output and terminal mode are judged as everywhere else; the message naming the cause is looked for on pty + redirected stdout + redirected stderr and is only demanded when neither stdout nor stderr is /dev/null or closed (otherwise the operator discarded it; counted)",
 		"clean exits with redirected descriptors: Ctrl+C / Ctrl+D are delivered through standard input where it is the terminal or a pipe (bytes 0x03/0x04, also after an unfinished line); where standard input is /dev/null, closed, a file (empty or with lines, possibly an unfinished last one) or a pipe whose writer goes away, the exit is the end of input; with and without a shell attached; -one-shell completion with Enter delivered through standard input if the program waits for a line; keys are only typed on a terminal once the program shows it is up ('Listening on' where stdout can be seen, else the terminal's mode having changed), because before that they would be signals; if a program whose standard input cannot deliver keys is still there after 3 s the key is also typed on the terminal (steers the workload only); judged: status 0, no crash output, terminal mode restored",
 		"Ctrl+I source class widened from missing/unset to 'exists but holds something unusable': a directory with one good member and one member named *.sh / *.subr / *.pl that is a dangling symbolic link (absolute, relative), a two-link loop, unreadable (uid 65534, mode 000), a FIFO, a socket, a directory, a link to a directory / FIFO / device, or a file removed and recreated in a loop while the program runs; a directory whose names can be listed but whose members cannot be examined, or which cannot be listed (uid 65534, modes 0744 / 0711); a single source that is unreadable, a link loop, a socket, a link to a device or FIFO, or below an unsearchable directory; with -print-ctrl-i (TTY, no TTY, stdout into a pipe or file, and paired with a listen / log / cache fault) the statement is read as: the program may fail or may succeed without the member; no crash output or signal, a non-zero status comes with a message naming a cause, terminal mode restored; not exiting within 30 s is inconclusive (a FIFO being read is first given a writer); interactively Tab or Ctrl+J is pressed 1-3 times, the reaction awaited for at most 10 s (steering only), then Ctrl+C / Ctrl+D: no crash output, terminal mode restored, and status 0 if the program was still running when asked to leave",
+		"signals and terminal events during the session (engines signal, sigfault): the harness is the parent of the program, which is the leader of its own session and process group on the pty; it delivers with kill(pid) / kill(-pgid): SIGCONT to a program that was never stopped, SIGSTOP then (after 0-120 ms) SIGCONT with the terminal left alone (a supervisor, a debugger), SIGTSTP to the group then SIGCONT (whether the program really stops is only counted: the kernel discards SIGTSTP's default action for the orphaned group of a session leader), SIGSTOP during which the terminal is put in the mode found and then back in the mode the program had set before SIGCONT (what a job-control shell does on stop / fg), SIGWINCH with the window unchanged, TIOCSWINSZ with another size (2-101 rows, 20-299 columns; through a descriptor of the terminal the harness opens via /proc/PID/fd/0), one or two size changes while the program is stopped, and sequences of 2-5 of these; each at the idle prompt, after 1-200 typed characters without Enter, while an attached shell sends a line every 3 ms, after Ctrl+O ('Muting'), and directly before the exit is asked for (for half of those cases, if the events contain a stop, the exit key is typed - or the shell of -one-shell ends - while the program is stopped, with the terminal in the program's own mode); in all but the last moment the exit is only asked for once the program has shown the shell's last line and reacted to a typed key (bounded wait, expiry = inconclusive); then Ctrl+C, Ctrl+D (after Enter, if a line is half typed) or the end of the shell under -one-shell (plus Enter if the program is still there 300 ms after 'Shell is gone': steering only); judged like every clean exit: status 0 (not demanded if the program had already left when it was asked to), no crash output or death by signal, termios of the controlling terminal after exit equal to the one before start; nothing is judged while the program is stopped, every stop is followed by SIGCONT",
+		"start-up faults with signals before the failure is detected: -tls-certificate-cache names a FIFO; the program having changed the terminal sits in the open/read of its cache (the harness sees the FIFO gain a reader), the events are delivered, then the harness writes random bytes / a valid archive cut short / nothing and closes: a damaged certificate cache, noticed after the signals; and the listen address in use with the events sent right after exec, racing the start-up (whatever the order); oracle of the fault runs: non-zero status, a message naming the cause, no crash output, terminal mode restored",
 		"default-location cache faults: no -tls-certificate-cache argument; HOME / XDG_CACHE_HOME point below /proc, below a regular file, or (uid 65534) into a root-owned 0555 directory",
 	)
 
@@ -1759,6 +1761,29 @@ func Run(r *mon.Run) {
 	mon.Parallel(len(tasks), 14, func(i int) { guard(tasks[i].name, tasks[i].f) })
 	r.Logf("clean exits and %d Ctrl+I source runs done", len(cs))
 
+	// ---- signals and terminal events during the session, then a self-exit ----
+	// Every (events, moment, exit) and every (start-up fault, events) in both
+	// tiers; the thorough tier three times over, with other PRNG streams.
+	var sg []task
+	for i, n := 0, r.N(1, 3)*sigCombos(); i < n; i++ {
+		if r.Want("signal", i) {
+			sg = append(sg, task{fmt.Sprintf("signal-%d", i), func() { e.runSignal(i, col) }})
+		}
+	}
+	for i, n := 0, r.N(1, 3)*sigFaultCombos(); i < n; i++ {
+		if r.Want("sigfault", i) {
+			sg = append(sg, task{fmt.Sprintf("sigfault-%d", i), func() { e.runSigFault(i, col) }})
+		}
+	}
+	// (these runs mostly wait - a race-built program sleeps a second before it
+	// exits - and share the time with the next group)
+	sgDone := make(chan struct{})
+	go func() {
+		defer close(sgDone)
+		mon.Parallel(len(sg), 16, func(i int) { guard(sg[i].name, sg[i].f) })
+		r.Logf("exits after signals and terminal events done")
+	}()
+
 	// ---- exits with insertions pending ----
 	// quick: every scenario once and the light ones a second time.
 	nPend := len(pendLight) + len(pendFull)
@@ -1773,9 +1798,10 @@ func Run(r *mon.Run) {
 		guard(fmt.Sprintf("pending-%d", pd[i]), func() { e.runPending(pd[i], col) })
 	})
 	r.Logf("exits with insertions pending done")
+	<-sgDone
 
 	// Report in a fixed order (engine, index), not in completion order.
-	order := map[string]int{"single": 0, "pair": 1, "logged": 2, "loggedpair": 3, "stdio": 4, "stdiopair": 5, "clean": 6, "icanhazip": 7, "stdioclean": 8, "ctrlisrc": 9, "pending": 10}
+	order := map[string]int{"single": 0, "pair": 1, "logged": 2, "loggedpair": 3, "stdio": 4, "stdiopair": 5, "clean": 6, "icanhazip": 7, "stdioclean": 8, "ctrlisrc": 9, "pending": 10, "signal": 11, "sigfault": 12}
 	sort.SliceStable(col.fs, func(i, j int) bool {
 		a, b := col.fs[i], col.fs[j]
 		if order[a.engine] != order[b.engine] {
@@ -1889,6 +1915,8 @@ func Run(r *mon.Run) {
 	r.Floor("pending_exits_with_unfinished_insertion_ctrl-c", 2)
 	r.Floor("pending_exits_with_unfinished_insertion_ctrl-d", 2)
 	r.Floor("pending_tabs_pressed", 2000)
+	// Signals and terminal events during the session.
+	sigFloors(r)
 	r.Floor("runs_tty", 50)
 	r.Floor("runs_notty", 25)
 	r.Floor("termios_comparisons", 50)
